@@ -6,7 +6,7 @@ import N0Verif.Proofs.CompareFrame
 /-!
 # C09 — compare reports are faithful to the operands and leave them untouched
 
-Model: `N0Verif/Model/Compare.lean` (the code with fix patches C07-a, C08-a, C09-a applied).
+Model: `N0Verif/Model/Compare.lean` (the code with fix patches C07-a, C08-a, C09-a, C07-b, C07-c, C09-b, C10-a applied).
 Operand purity is immediate in a pure model (values are immutable); it is carried by the
 correspondence harness (deep copies before/after), not claimed as a theorem.  What is NOT immediate is the
 frame statement at the end of this file: which part of the operands the result depends on — the class tags
@@ -37,24 +37,28 @@ theorem C09_not_equal_differ (cfg : Cfg) (a b : Val) (r : Res) (htr : cfg.tr = [
     (h : compareTop cfg a b = .ok r) : ∀ e ∈ r.notEqual, e.l ≠ e.r :=
   notEqual_differ cfg a b r htr h
 
-/-- **C09 (type clashes are faithful).** The left value is at the reported path, the types really differ;
-the right value is at the same path for `direct_compare`.  (Inside a keyed list a clash is reported at
-`prefix[i]` with the left index only — counter-example `C09_clash_right_index_cex`.) -/
+/-- **C09 (type clashes are faithful).** The left value is at the reported path in the left operand, the right
+value at the same path in the right operand (right index of `[i]<>[j]`), and the types really differ — both entry
+points (since fix C09-b a clash inside a keyed list carries both indexes, `C09_clash_keyed_example`). -/
 theorem C09_difftypes_faithful (cfg : Cfg) (a b : Val) (r : Res) (hw : wf a = true) (hw' : wf b = true)
     (h : compareTop cfg a b = .ok r) :
     ∀ e ∈ r.diffTypes, getAt .left e.path a = some e.l ∧ (cfg.tr = [] → tyOf e.l ≠ tyOf e.r)
-      ∧ (cfg.direct = true → getAt .right e.path b = some e.r) :=
+      ∧ getAt .right e.path b = some e.r :=
   diffTypes_faithful cfg a b r hw hw' h
 
-/-- the right value of a type clash inside a keyed list is *not* at the reported path: `['1']` vs
-`[None, 1]` pairs left 0 with right 1 (same `str()`), reports the clash at `[0]`, where the right
-operand holds `None`.  Needs a `str()` collision (finding C07-b). -/
-theorem C09_clash_right_index_cex :
-    compareTop (Cfg.default ⟨true, false, false, false, false, true⟩ false)
-        (.list .n0 [.str ['1']]) (.list .n0 [.none, .int 1])
-      = .ok { diffs := 2, diffTypes := [⟨[.idx 0], .str ['1'], .int 1⟩], otherUnique := [⟨[.idx 0], .none⟩] }
-    ∧ getAt .right [.idx 0] (.list .n0 [.none, .int 1]) = some .none :=
-  diffTypes_right_keyed_cex
+/-- a type clash inside a keyed list: the record `{i: '1'}` at left index 0 is paired by its composite key with the
+plain `dict` `{i: '1'}` at right index 1; the clash is reported at `[0]<>[1]`, which resolves on the right to that
+plain `dict` (before fix C09-b: at `[0]`, where the right operand holds `{}`). -/
+theorem C09_clash_keyed_example :
+    compareTop { Cfg.default ⟨true, false, false, false, false, true⟩ false with ck := .one ['i'] }
+        (.list .n0 [.dict .n0 [(['i'], .str ['1'])]])
+        (.list .n0 [.dict .n0 [], .dict .plain [(['i'], .str ['1'])]])
+      = .ok { diffs := 2,
+              diffTypes := [⟨[.idx2 0 1], .dict .n0 [(['i'], .str ['1'])], .dict .plain [(['i'], .str ['1'])]⟩],
+              otherUnique := [⟨[.idx 0], .dict .n0 []⟩] }
+    ∧ getAt .right [.idx2 0 1] (.list .n0 [.dict .n0 [], .dict .plain [(['i'], .str ['1'])]])
+        = some (.dict .plain [(['i'], .str ['1'])]) :=
+  diffTypes_right_keyed_example
 
 /-- **C09 (unique entries are present on their side).** -/
 theorem C09_unique_faithful (cfg : Cfg) (a b : Val) (r : Res) (hw : wf a = true) (hw' : wf b = true)
@@ -104,40 +108,48 @@ theorem C09_swap_partial (cfg : Cfg) (a b : Val) (r : Res) (htr : cfg.tr = []) (
        r'.otherUnique.Perm r.mirror.otherUnique ∧ r'.diffTypes.Perm r.mirror.diffTypes ∧ r'.diffs = r.diffs) :=
   swap_direct cfg a b r htr hd hw hw' h
 
-/-- the keyed entry point, as first stated (hypotheses: no transform, the types flag off — a clash inside a
-keyed list carries the index of the driving side only —, `exclude_xpaths`/`compare_only` invariant under
-mirroring of `[i]<>[j]` (`C09_swap_keyed_exclude_cex`), unique dictionary keys, pairwise different item keys
-in every list).  **Proved**: `C09_swap`; the hypothesis on the item keys turned out to be
-unnecessary (`C09_swap_keyed`). -/
+/-- the keyed entry point, as first stated (hypotheses: no transform, the types flag off,
+`exclude_xpaths`/`compare_only` invariant under mirroring of `[i]<>[j]` (`C09_swap_keyed_exclude_cex`), unique
+dictionary keys, pairwise different item keys in every list).  **Proved**: `C09_swap`; the hypotheses on the item
+keys and on the types flag turned out to be unnecessary (`C09_swap_keyed`). -/
 def C09_swap_stmt : Prop := swap_keyed_stmt
 
 theorem C09_swap : C09_swap_stmt := swap_keyed_stmt_holds
 
-/-- **C09 (swap, keyed/default comparison).** For `compare` (`n0list.compare`/`n0dict.compare`), every
-composite key, no `transform`, the types flag off, `exclude_xpaths`/`compare_only` that do not distinguish
-`[i]<>[j]` from `[j]<>[i]`, trees with unique dictionary keys — and **no assumption on the item keys**
-(repeated composite keys, `str()` collisions are allowed: the n-th item with key K on one side is paired
-with the n-th item with key K on the other side, whichever side drives the loop): swapping the operands
-swaps the two unique lists and mirrors each pair (`[i]<>[j]` becomes `[j]<>[i]`), as multisets of entries,
-and keeps the number of lines. -/
+/-- **C09 (swap, keyed/default comparison, every flag record).** For `compare` (`n0list.compare`/`n0dict.compare`),
+every composite key, **every flag record** (since fix C09-b the place of a type clash is mirrored like every other
+place), no `transform`, `exclude_xpaths`/`compare_only` that do not distinguish `[i]<>[j]` from `[j]<>[i]`, trees
+with unique dictionary keys — and **no assumption on the item keys** (repeated composite keys are allowed: the n-th
+item with key K on one side is paired with the n-th item with key K on the other side, whichever side drives the
+loop): swapping the operands swaps the two unique lists and mirrors each pair and each type clash (`[i]<>[j]` becomes
+`[j]<>[i]`), as multisets of entries, and keeps the number of lines. -/
 theorem C09_swap_keyed (cfg : Cfg) (a b : Val) (r : Res) (htr : cfg.tr = []) (hd : cfg.direct = false)
-    (hty : cfg.fl.types = false)
     (hex : ∀ p, excluded cfg (mirrorPath p) = excluded cfg p) (hon : ∀ p, onlyOk cfg (mirrorPath p) = onlyOk cfg p)
     (hw : wf a = true) (hw' : wf b = true) (h : compareTop cfg a b = .ok r) :
     ∃ r', compareTop cfg b a = .ok r' ∧
       (r'.notEqual.Perm r.mirror.notEqual ∧ r'.selfUnique.Perm r.mirror.selfUnique ∧
        r'.otherUnique.Perm r.mirror.otherUnique ∧ r'.diffTypes.Perm r.mirror.diffTypes ∧ r'.diffs = r.diffs) :=
-  swap_keyed cfg a b r htr hd hty hex hon hw hw' h
+  swap_keyed cfg a b r htr hd hex hon hw hw' h
 
-/-- **C09 (swap, keyed comparison, every flag record).** With the types flag on, everything is mirrored as
-above except the *place* of a type clash found inside a keyed list (finding C09-b,
-`C09_swap_keyed_types_cex`): the `difftypes` entries of the two runs are the same pairs of values, flipped
-(`SwV.dt`), the other three lists are mirrored with their paths, the number of lines is the same. -/
+/-- the same statement as a relation (`SwV` = the four lists mirrored as multisets, same number of lines) -/
 theorem C09_swap_keyed_all_flags (cfg : Cfg) (a b : Val) (r : Res) (htr : cfg.tr = []) (hd : cfg.direct = false)
     (hex : ∀ p, excluded cfg (mirrorPath p) = excluded cfg p) (hon : ∀ p, onlyOk cfg (mirrorPath p) = onlyOk cfg p)
     (hw : wf a = true) (hw' : wf b = true) (h : compareTop cfg a b = .ok r) :
     ∃ r', compareTop cfg b a = .ok r' ∧ SwV r r' :=
   compareTop_swap_keyed cfg a b r htr hd ⟨hex, hon⟩ hw hw' h
+
+/-- **C09 (swap, both entry points, every flag record)**: `C09_swap_partial` and `C09_swap_keyed` together — no
+transform, mirror-invariant path filters (for `direct_compare` paths have no `[i]<>[j]`; the hypothesis is only used
+by the keyed entry point), unique dictionary keys. -/
+theorem C09_swap_all (cfg : Cfg) (a b : Val) (r : Res) (htr : cfg.tr = [])
+    (hex : ∀ p, excluded cfg (mirrorPath p) = excluded cfg p) (hon : ∀ p, onlyOk cfg (mirrorPath p) = onlyOk cfg p)
+    (hw : wf a = true) (hw' : wf b = true) (h : compareTop cfg a b = .ok r) :
+    ∃ r', compareTop cfg b a = .ok r' ∧
+      (r'.notEqual.Perm r.mirror.notEqual ∧ r'.selfUnique.Perm r.mirror.selfUnique ∧
+       r'.otherUnique.Perm r.mirror.otherUnique ∧ r'.diffTypes.Perm r.mirror.diffTypes ∧ r'.diffs = r.diffs) := by
+  cases hd : cfg.direct with
+  | true => exact swap_direct cfg a b r htr hd hw hw' h
+  | false => exact swap_keyed cfg a b r htr hd hex hon hw hw' h
 
 /-- in particular the verdict of `compare` does not depend on the order of the operands -/
 theorem C09_swap_keyed_verdict (cfg : Cfg) (a b : Val) (r : Res) (htr : cfg.tr = []) (hd : cfg.direct = false)
@@ -151,9 +163,9 @@ theorem C09_swap_keyed_default_filters (cfg : Cfg) (h : NoPathOpts cfg) :
     (∀ p, excluded cfg (mirrorPath p) = excluded cfg p) ∧ (∀ p, onlyOk cfg (mirrorPath p) = onlyOk cfg p) :=
   ⟨(swk_mirrorInv_noPathOpts h).excl, (swk_mirrorInv_noPathOpts h).only⟩
 
-/-- the full-strength statement — both entry points, **every** option and flag record — is false: see
-`C09_swap_transform_cex` (transform), `C09_swap_keyed_exclude_cex` (a pattern naming `[0]<>[1]`) and
-`C09_swap_keyed_types_cex` (place of a clash inside a keyed list) -/
+/-- the full-strength statement — both entry points, **every** option record (transform and path filters included) —
+is false: see `C09_swap_transform_cex` (transform) and `C09_swap_keyed_exclude_cex` (a pattern naming `[0]<>[1]`);
+every flag record is covered by `C09_swap_all` -/
 def C09_swap_full_stmt : Prop :=
   ∀ (cfg : Cfg) (a b : Val) (r : Res), wf a = true → wf b = true → compareTop cfg a b = .ok r →
     ∃ r', compareTop cfg b a = .ok r' ∧
@@ -167,16 +179,18 @@ theorem C09_swap_full_refuted : ¬ C09_swap_full_stmt := by
   rw [swap_transform_cex.2] at hr'
   cases hr'
 
-/-- the types flag on: `['1']` vs `[None, 1]` reports the clash at `[0]`, the swapped run at `[1]` (each run
-uses the index of its own left operand) — finding C09-b -/
-theorem C09_swap_keyed_types_cex :
-    (compareTop (Cfg.default ⟨true, false, false, false, false, true⟩ false)
-        (.list .n0 [.str ['1']]) (.list .n0 [.none, .int 1])).map (fun r => r.diffTypes.map (·.path))
-      = .ok [[.idx 0]] ∧
-    (compareTop (Cfg.default ⟨true, false, false, false, false, true⟩ false)
-        (.list .n0 [.none, .int 1]) (.list .n0 [.str ['1']])).map (fun r => r.diffTypes.map (·.path))
-      = .ok [[.idx 1]] :=
-  swap_keyed_types_cex
+/-- the types flag on: the place of a clash found inside a keyed list is mirrored (`[0]<>[1]` / `[1]<>[0]`;
+before fix C09-b each run used the index of its own left operand only) -/
+theorem C09_swap_keyed_types_example :
+    (compareTop { Cfg.default ⟨true, false, false, false, false, true⟩ false with ck := .one ['i'] }
+        (.list .n0 [.dict .n0 [(['i'], .str ['1'])]])
+        (.list .n0 [.dict .n0 [], .dict .plain [(['i'], .str ['1'])]])).map (fun r => r.diffTypes.map (·.path))
+      = .ok [[.idx2 0 1]] ∧
+    (compareTop { Cfg.default ⟨true, false, false, false, false, true⟩ false with ck := .one ['i'] }
+        (.list .n0 [.dict .n0 [], .dict .plain [(['i'], .str ['1'])]])
+        (.list .n0 [.dict .n0 [(['i'], .str ['1'])]])).map (fun r => r.diffTypes.map (·.path))
+      = .ok [[.idx2 1 0]] :=
+  swap_keyed_types_example
 
 /-- with a transform that changes types the ordered comparison is not symmetric either: `{k: None}` vs
 `{k: 3}` under a function mapping everything to a list returns normally one way and raises `TypeError`
@@ -295,16 +309,21 @@ example : getAt .left [.key ['r'], .idx2 0 1, .key ['v']] exL = some (.int 1)
     ∧ getAt .right [.key ['r'], .idx2 0 1, .key ['v']] exR = some (.int 5) := by decide
 
 /-! Non-vacuity of `C09_swap_keyed`: the same pair swapped — `[0]<>[1]` becomes `[1]<>[0]`, the unique item
-moves to the other list; and a pair with a REPEATED composite key (second `i=1` record) and a `str()` collision. -/
-example : exCfg.tr = [] ∧ exCfg.direct = false ∧ exCfg.fl.types = false := by decide
+moves to the other list; and a pair with a REPEATED composite key (second `i=1` record) and the items `1` / `'1'`,
+which no longer meet (keys `1` and `"1"`). -/
+example : exCfg.tr = [] ∧ exCfg.direct = false := by decide
 example : (compareTop exCfg exR exL).map (fun r => (r.diffs, r.notEqual.map (·.path), r.otherUnique.map (·.path)))
     = .ok (3, [[.key ['r'], .idx2 0 1, .key ['v']], [.key ['r'], .idx2 1 0, .key ['v']]], [[.key ['r'], .idx 2]]) := by decide
 def exDupL : Val := .list .n0 [.dict .n0 [(['i'], .str ['1']), (['v'], .int 1)], .int 1, .dict .n0 [(['i'], .str ['1']), (['v'], .int 2)]]
 def exDupR : Val := .list .n0 [.str ['1'], .dict .n0 [(['i'], .str ['1']), (['v'], .int 2)], .dict .n0 [(['i'], .str ['1']), (['v'], .int 2)], .dict .n0 [(['i'], .str ['1']), (['v'], .int 3)]]
 example : wf exDupL = true ∧ wf exDupR = true := by decide
-example : (compareTop exCfg exDupL exDupR).map (fun r => (r.diffs, r.notEqual.map (fun e => (e.path, e.kind)), r.otherUnique.map (·.path)))
-    = .ok (3, [([.idx2 0 1, .key ['v']], .lst), ([.idx2 1 0], .tup)], [[.idx 3]]) := by decide
-example : (compareTop exCfg exDupR exDupL).map (fun r => (r.diffs, r.notEqual.map (fun e => (e.path, e.kind)), r.selfUnique.map (·.path)))
-    = .ok (3, [([.idx2 0 1], .tup), ([.idx2 1 0, .key ['v']], .lst)], [[.idx 3]]) := by decide
+example : (compareTop exCfg exDupL exDupR).map (fun r => (r.diffs, r.notEqual.map (fun e => (e.path, e.kind))))
+    = .ok (4, [([.idx2 0 1, .key ['v']], .lst)]) := by decide
+example : (compareTop exCfg exDupL exDupR).map (fun r => (r.selfUnique.map (·.path), r.otherUnique.map (·.path)))
+    = .ok ([[.idx 1]], [[.idx 0], [.idx 3]]) := by decide
+example : (compareTop exCfg exDupR exDupL).map (fun r => (r.diffs, r.notEqual.map (fun e => (e.path, e.kind))))
+    = .ok (4, [([.idx2 1 0, .key ['v']], .lst)]) := by decide
+example : (compareTop exCfg exDupR exDupL).map (fun r => (r.selfUnique.map (·.path), r.otherUnique.map (·.path)))
+    = .ok ([[.idx 0], [.idx 3]], [[.idx 1]]) := by decide
 
 end N0.C09
